@@ -39,11 +39,16 @@ Definition extract_domain (email : str) : option str := option_map snd (extract_
 
 Definition parse_rcpt_to (args : str) : option str :=
   let args := trim_space args in
-  if negb (has_prefix (to_upper args) (S_ "TO:")) then None
+  if (length args <? 3)%nat || negb (equal_fold (firstn 3 args) (S_ "TO:")) then None
   else
-    let args := trim_prefix args (S_ "TO:") in
-    let args := trim_prefix args (S_ "to:") in
-    let args := trim_space args in
+    let args := trim_space (skipn 3 args) in
+    (* the address ends at the closing bracket; ESMTP parameters may follow it *)
+    let args := if has_prefix args (S_ "<")
+                then match index args (S_ ">") with
+                     | Some e => firstn (S e) args
+                     | None => args
+                     end
+                else args in
     let args := trim_prefix args (S_ "<") in
     let args := trim_suffix args (S_ ">") in
     Some args.
@@ -102,13 +107,6 @@ Definition user_is (n dom : str) (u : user) : bool := str_eqb (u_name u) n && st
 Definition check_user_exists (d : db) (username : str) : bool :=
   existsb (fun u => str_eqb (u_name u) username) (users d).
 
-(** Storage.CheckRecipientExists: [None] = error return *)
-Definition check_recipient_exists (d : db) (recipient : str) : option bool :=
-  match extract_local_part recipient with
-  | None => None
-  | Some username => Some (check_user_exists d username)
-  end.
-
 (** db.GetUserByUsername: ... WHERE username = ? AND domain_id = ? AND enabled = true *)
 Definition get_user_by_username (d : db) (n dom : str) : bool :=
   existsb (fun u => user_is n dom u && u_enabled u) (users d).
@@ -119,6 +117,24 @@ Definition user_row_exists (d : db) (n dom : str) : bool := existsb (user_is n d
 (** db.GetRoleMailboxByEmail: ... WHERE email = ? AND enabled = true *)
 Definition get_role_mailbox_by_email (d : db) (email : str) : bool :=
   existsb (fun r => str_eqb (r_email r) email && r_enabled r) (roles d).
+
+(** db.RoleMailboxExists: the same WHERE clause *)
+Definition role_mailbox_exists (d : db) (email : str) : bool := get_role_mailbox_by_email d email.
+
+(** Storage.CheckRecipientExists: [None] = error return. An enabled role
+    mailbox address, or an enabled user of that name in that domain (one
+    query joining users and domains; domains are all enabled in the view). *)
+Definition check_recipient_exists (d : db) (recipient : str) : option bool :=
+  match extract_local_part recipient with
+  | None => None
+  | Some username =>
+      match extract_domain recipient with
+      | None => None
+      | Some domain =>
+          if role_mailbox_exists d recipient then Some true
+          else Some (get_user_by_username d username domain)
+      end
+  end.
 
 Definition add_user (d : db) (n dom : str) : db :=
   mkDb (users d ++ [mkUser n dom true]) (roles d) (msgs d).
@@ -296,7 +312,8 @@ Fixpoint results_get (results : list (str * deliver_result)) (r : str) : option 
 
 Inductive data_reply :=
 | DR503                                   (* no recipients *)
-| DR554                                   (* read / parse / validate failure: ONE reply *)
+| DR_refused (code : Z) (n : nat)         (* Session.rejectMessage: read / parse / validate failure,
+                                            one reply of that code per accepted recipient *)
 | DR_per (replies : list bool).           (* per recipient: true = 250, false = 550 *)
 
 Record data_out := mkDataOut {
@@ -317,9 +334,9 @@ Definition handle_data (cfg : config) (d : db) (recipients : list str) (m : mess
   match recipients with
   | [] => mkDataOut DR503 [] [] d
   | _ =>
-      if (max_size cfg <? m_size m) then mkDataOut DR554 [] [] d          (* ReadDataCommand *)
-      else if negb (m_parse_ok m) then mkDataOut DR554 [] [] d            (* ParseMessage *)
-      else if (max_size cfg <? m_size m) then mkDataOut DR554 [] [] d     (* ValidateMessage *)
+      if (max_size cfg <? m_size m) then mkDataOut (DR_refused 552 (length recipients)) [] [] d   (* ReadDataCommand: ErrMessageTooLarge *)
+      else if negb (m_parse_ok m) then mkDataOut (DR_refused 554 (length recipients)) [] [] d   (* ParseMessage *)
+      else if (max_size cfg <? m_size m) then mkDataOut (DR_refused 554 (length recipients)) [] [] d   (* ValidateMessage *)
       else
         let logged := quota_log cfg d recipients m in                      (* result ignored *)
         let '(results, d') := deliver_to_multiple d recipients m (default_folder cfg) in
@@ -358,6 +375,10 @@ Fixpoint handle_rcpts_addr (cfg : config) (d : db) (recipients : list str) (addr
 Definition run_txn_addr (cfg : config) (d : db) (addrs : list str) (m : message) : txn_out :=
   let '(rs, recipients) := handle_rcpts_addr cfg d [] addrs in
   mkTxnOut rs recipients (handle_data cfg d recipients m).
+
+(** number of reply lines after the end of data *)
+Definition reply_count (r : data_reply) : nat :=
+  match r with DR503 => 0%nat | DR_refused _ n => n | DR_per replies => length replies end.
 
 (** observable outcome per RCPT line *)
 Inductive moutcome := MRefused | MFiled (st : store) (folder : str) | MInconsistent.
